@@ -13,6 +13,9 @@ OUT = "/verif/seeded"
 # changes judged outside their property's quantifier (not kept as seeded breaks); reason shown in INDEX.md
 OUT_OF_SCOPE = {"C20-r3-m3": "needs Codec(cumulative_payloads[d]=False): the property quantifies over format descriptors and imposed shapes "
                              "and fixes the layout as 'cumulative occupancies as segment ends'; the flag that asks for another layout is outside it"}
+OUT_OF_SCOPE["C12-r9-m2"] = ("needs a tensor declared with a falsy NON-NUMERIC leaf default (None, '' or ()): C12's check quantifies over numeric leaf "
+                              "defaults (SPEC assumptions: leaf values and defaults are Python numbers compared by value; DESIGN section 9: undocumented argument "
+                              "types are not judged), and with the numeric defaults it generates (0, 0.0, 7, ...) the change is behaviour-preserving")
 ROUNDS = [("/var/tmp/mutants", "/var/tmp/seedres", ""), ("/var/tmp/mutants2", "/var/tmp/seedres2", "r2"),
           ("/var/tmp/mutants3", "/var/tmp/seedres3", "r3"), ("/var/tmp/mutants4", "/var/tmp/seedres4", "r4"),
           ("/var/tmp/mutants5", "/var/tmp/seedres5", "r5"), ("/var/tmp/mutants6", "/var/tmp/seedres6", "r6"),
